@@ -164,7 +164,7 @@ impl Prop for C16 {
 
     fn assumptions(&self) -> Vec<String> {
         vec![
-            "every page but the last holds at least one entry; no entry is 0.0.0.0:0; an address may be listed again (also as the first entry of the next page), but a page does not end on the address it was seeded with (the client takes that for no progress)".into(),
+            "every page but the last holds at least one entry; no entry is 0.0.0.0:0; an address may be listed again (also as the first entry of the next page), (also as the last entry of a later page) but a page does not end on the address it was seeded with (the client takes that for no progress)".into(),
             "an empty tag list denotes no condition".into(),
         ]
     }
@@ -225,7 +225,13 @@ impl Prop for C16 {
                     for i in 1 .. pages.len() {
                         if let Some(prev_last) = pages[i - 1].last().copied() {
                             if pages[i].len() >= 2 {
-                                if (salt >> 10) % 2 == 0 {
+                                if (salt >> 10) % 3 == 2 && i + 1 < pages.len() && pages[i - 1].len() >= 2 {
+                                    // a page that is not the last one ENDS on an address listed earlier (not the one it was seeded with)
+                                    let earlier = pages[i - 1][0];
+                                    if let Some(l) = pages[i].last_mut() {
+                                        *l = earlier;
+                                    }
+                                } else if (salt >> 10) % 2 == 0 {
                                     pages[i][0] = prev_last;
                                 } else {
                                     let mid = pages[i].len() / 2;
